@@ -58,10 +58,19 @@ def make_case(rng, Pstr, n, nticks, bid=None, grid_periods=None):
 
 def build_prog(case):
     framers = []
-    for t in case["taskers"]:
-        framers.append(P.framer(t["name"], [P.frame("f0", [P.rec(t["name"] + ".r")])], sched=t["sched"],
-                                period=t["period"], order=t["order"]))
     bid = case["bid"]
+    for t in case["taskers"]:
+        fr = [P.frame("f0", [P.rec(t["name"] + ".r")])]
+        if bid and bid.get("self") and bid["who"] == t["name"]:
+            # the tasker changes its own period, in the middle of one of its own runs: after bid["tick"] runs it enters a
+            # frame whose enter action is `bid run me at <new period>`; that very run is rescheduled with the new period
+            fr = [P.frame("f0", [P.rec(t["name"] + ".r"), {"v": "repeat", "n": bid["tick"]}]),
+                  P.frame("f1", [P.rec(t["name"] + ".r"), P.rec("drv.bid", "enter"),
+                                 {"v": "bid", "ctl": bid["ctl"], "who": ["me"], "at": bid["newp"], "ctx": None}])]
+        framers.append(P.framer(t["name"], fr, sched=t["sched"], period=t["period"], order=t["order"]))
+    selfbid = bid if (bid and bid.get("self")) else None
+    if selfbid:
+        bid = None            # (the driver only waits and stops everybody)
     n1 = case["nticks"]
     frames = []
     if bid:
@@ -153,6 +162,8 @@ def check_case(ctx, case):
             if e["tag"] == "drv.bid":
                 bid_seq = res.trace.index(e)
                 ctx.hit("bids_observed")
+                if bid.get("self"):
+                    ctx.hit("self_bids_observed")
                 break
         if bid.get("then_start") and any(e["tag"] == "drv.bid2" for e in res.trace):
             ctx.hit("start_bid_after_abort")
@@ -258,6 +269,10 @@ def run(ctx):
         if r < 0.4:
             bid = {"kind": "period", "ctl": rng.choice(["run", "start"]), "who": "t%d" % rng.randrange(n),
                    "newp": rng.choice(periods_for(Pstr)), "tick": rng.randint(1, nt - 3)}
+            if rng.random() < 0.35:
+                bid["self"] = True
+                bid["ctl"] = "run"
+                bid["tick"] = rng.randint(1, 4)       # (counted in the tasker's own runs)
         elif r < 0.55:
             bid = {"kind": "abort", "who": "t%d" % rng.randrange(n), "tick": rng.randint(1, nt - 3)}
             if rng.random() < 0.6 and nt - bid["tick"] > 6:
@@ -281,4 +296,5 @@ def run(ctx):
     ctx.floor("aborted_runs", 1)
     ctx.floor("abort_controls_delivered", 5)
     ctx.floor("start_bid_after_abort", 5)
+    ctx.floor("self_bids_observed", 5)
     ctx.floor("nonzero_start_time_cases", 20)
